@@ -719,10 +719,16 @@ func fieldMap(mappings []*FieldMapping, allowMapKeyNotFound bool) func(any) (map
 func streamFieldMap(mappings []*FieldMapping) func(streamReader) streamReader {
 	mapChunk := fieldMap(mappings, true)
 	return func(input streamReader) streamReader {
+		// a chunk of a map may hold only some of the mapped keys, so a missing key is tolerated per chunk;
+		// a key that no chunk of the stream held is the request-time error it is in value form
+		seen := make(map[string]bool, len(mappings))
 		return packStreamReader(schema.StreamReaderWithConvert(input.toAnyStreamReader(), func(chunk any) (map[string]any, error) {
 			mapped, err := mapChunk(chunk)
 			if err != nil {
 				return nil, err
+			}
+			for to := range mapped {
+				seen[to] = true
 			}
 			if len(mapped) == 0 && len(mappings) > 0 {
 				// a chunk of a map that holds none of the mapped keys has nothing for the successor: it must
@@ -730,7 +736,15 @@ func streamFieldMap(mappings []*FieldMapping) func(streamReader) streamReader {
 				return nil, schema.ErrNoValue
 			}
 			return mapped, nil
-		}))
+		}, schema.WithOnEOF(func() error {
+			for _, mapping := range mappings {
+				if !seen[mapping.to] {
+					return fmt.Errorf("field mapping from a map key, but key not found in any chunk of the input stream. mapping: %s%w",
+						mapping, &errMapKeyNotFound{mapKey: mapping.from})
+				}
+			}
+			return nil
+		})))
 	}
 }
 
